@@ -1,13 +1,166 @@
-import Uflow.Model.Endpoint
+import Uflow.Lemmas.EndpointServerExample
 
-/-! # C18 (theorems on the endpoint model are being added) -/
+/-!
+# C18 — no amplification towards addresses that never completed a handshake
+
+Model: `Uflow/Model/Endpoint.lean`. Ghost counters: a run `SRun hc cfg s rx tx ev`
+(`Uflow/Lemmas/EndpointServerRun.lean`) carries the list `rx` of all datagrams handed to
+`Server.step`, the list `tx` of all datagrams sent and the list `ev` of all events delivered;
+`bytesOf a l` is the total length of the datagrams of `l` with address `a`. "`a` never had an
+`active` entry" is expressed observably as "no `connect a` event was ever delivered" (an entry
+becomes active exactly when `connect` is emitted, see C07); it implies `s.NoAct a` (no object of `a`
+is `active`/`closing`/`closed`). `s.phi a` is the number of SYN-ACK resends the timers still owe to
+pending objects of `a`. All theorems hold for every half-connection behaviour `hc`.
+-/
 
 namespace Uflow.Props.C18
 
-open Uflow.Endpoint
+open Uflow.Endpoint Uflow.Codec Uflow.Gen
+
+variable {H : Type}
 
 /-- `u32` (the model of `.min(u32::MAX as usize) as u32`) fits 32 bits. -/
 theorem C18_u32_lt (x : Nat) : u32 x < 2^32 := by
   unfold u32; omega
+
+/-- **C18_ratio (with the owed resends).** For every run and every address `a` to which no `connect`
+event was ever delivered: no object of `a` is or was active, and
+`1472 * tx a + 1472 * 25 * (resends still owed to a) ≤ 275 * rx a`. -/
+theorem C18_ratio_owed (hc : HC H) (cfg : SrvConfig) (s : Server H) (rx tx : List (Nat × List Nat)) (ev : List SEvent)
+    (hr : SRun hc cfg s rx tx ev) (a : Nat) (hnc : SEvent.connect a ∉ ev) :
+    s.NoAct a ∧ 1472 * bytesOf a tx + 36800 * s.phi a ≤ 275 * bytesOf a rx := by
+  obtain ⟨_, hin | h⟩ := hr.G a
+  · rw [hr.eventsOut_nil, List.append_nil] at hin
+    exact absurd hin hnc
+  · exact h
+
+/-- **C18_ratio.** For every run (any sequence of `step` / `flush` / `drop` / `disconnect` / `send`,
+any arrivals and times) and every address `a` that never had an active entry (no `connect a`):
+`1472 * tx a ≤ 25 * (1 + SERVER_HANDSHAKE_RESEND_COUNT) * rx a`. -/
+theorem C18_ratio (hc : HC H) (cfg : SrvConfig) (s : Server H) (rx tx : List (Nat × List Nat)) (ev : List SEvent)
+    (hr : SRun hc cfg s rx tx ev) (a : Nat) (hnc : SEvent.connect a ∉ ev) :
+    1472 * bytesOf a tx ≤ (25 * (1 + SERVER_HANDSHAKE_RESEND_COUNT)) * bytesOf a rx := by
+  have := (C18_ratio_owed hc cfg s rx tx ev hr a hnc).2
+  simp only [SERVER_HANDSHAKE_RESEND_COUNT]
+  omega
+
+/-- Hence the server sends strictly less to such an address than it received from it. -/
+theorem C18_ratio_strict (hc : HC H) (cfg : SrvConfig) (s : Server H) (rx tx : List (Nat × List Nat)) (ev : List SEvent)
+    (hr : SRun hc cfg s rx tx ev) (a : Nat) (hnc : SEvent.connect a ∉ ev) (hpos : 0 < bytesOf a tx) :
+    bytesOf a tx < bytesOf a rx := by
+  have := C18_ratio hc cfg s rx tx ev hr a hnc
+  simp only [SERVER_HANDSHAKE_RESEND_COUNT] at this
+  omega
+
+/-! ### the ingredients, stated separately -/
+
+/-- Frame lengths: SYN 1472 (`MAX_FRAME_SIZE`), SYN-ACK 25, handshake error 10. -/
+theorem C18_frame_lengths :
+    (∀ v n r p a, (encode (.syn v n r p a)).length = 1472) ∧
+    (∀ na n r p a, (encode (.synAck na n r p a)).length = 25) ∧
+    (∀ na e, (encode (.hsError na e)).length = 10) :=
+  ⟨encode_syn_length, encode_synAck_length, encode_hsError_length⟩
+
+/-- A datagram that (after truncation to the 1472-byte receive buffer) decodes to a SYN has at least
+1472 bytes. -/
+theorem C18_syn_datagram_full (bytes : List Nat) (v n r p al : Nat)
+    (hd : decode (bytes.take MAX_FRAME_SIZE) = some (.syn v n r p al)) : 1472 ≤ bytes.length :=
+  syn_datagram_length hd
+
+/-- Only a SYN triggers a send towards an address without (formerly) active object: any other frame
+from anybody sends nothing to `a`; a SYN sends at most 25 bytes, and only to its sender. -/
+theorem C18_only_syn_triggers (hc : HC H) (s s' : Server H) (a : Nat) (hna : s.NoAct a) (addr : Nat) (f : Frame)
+    (nowMs nowNs : Nat) (sent : List (Nat × List Nat))
+    (hr : s.handleFrame hc addr f nowMs nowNs = .ok (s', sent)) :
+    bytesOf a sent = 0 ∨ ((∃ v n r p al, f = .syn v n r p al) ∧ addr = a ∧ bytesOf a sent ≤ 25) :=
+  Server.handleFrame_sent hc a hna addr f nowMs nowNs hr
+
+/-- Each SYN yields nothing (entry exists), one 10-byte error frame (refused), or one 25-byte SYN-ACK
+together with one pending entry and a resend timer with count 10 (accepted). -/
+theorem C18_syn_outcomes (s : Server H) (addr v n r p a nowMs : Nat) :
+    ((∃ c, s.find addr = some c) ∧ s.handleSyn addr v n r p a nowMs = (s, []))
+    ∨ (s.find addr = none ∧ ∃ e ev, s.handleSyn addr v n r p a nowMs = (s.refuse addr ev, [(addr, errFrame n e)]) ∧
+        (errFrame n e).length = 10 ∧ (s.refuse addr ev).clients = s.clients ∧ (s.refuse addr ev).timers = s.timers)
+    ∨ (s.find addr = none ∧
+        s.handleSyn addr v n r p a nowMs = (s.accept addr n r a nowMs, [(addr, s.synAckBytes n)]) ∧
+        (s.synAckBytes n).length = 25 ∧
+        (s.accept addr n r a nowMs).clients = s.clients ++ [s.newEntry addr n r a] ∧
+        (s.accept addr n r a nowMs).timers = tPush s.timers
+          { cid := s.nextCid, kind := .resendSynAck, time := nowMs + SERVER_HANDSHAKE_RESEND_INTERVAL_MS,
+            count := SERVER_HANDSHAKE_RESEND_COUNT }) := by
+  rcases s.handleSyn_cases addr v n r p a nowMs with ⟨h1, he⟩ | ⟨h1, e, ev, he⟩ | ⟨h1, _, _, _, _, he⟩
+  · exact Or.inl ⟨h1, he⟩
+  · exact Or.inr (Or.inl ⟨h1, e, ev, he, encode_hsError_length _ _, rfl, rfl⟩)
+  · exact Or.inr (Or.inr ⟨h1, he, encode_synAck_length .., rfl, rfl⟩)
+
+/-- An accepted SYN from `addr` adds exactly `SERVER_HANDSHAKE_RESEND_COUNT` owed resends for `addr`
+and none for any other address. -/
+theorem C18_accept_owed (s : Server H) (hw : s.WF) (addr n r al nowMs a : Nat) :
+    (s.accept addr n r al nowMs).phi a = (if addr = a then SERVER_HANDSHAKE_RESEND_COUNT else 0) + s.phi a :=
+  Server.phi_accept hw addr n r al nowMs a
+
+/-- A due timer: what it sends to an address `a` without (formerly) active object is paid for by the
+decrease of the owed resends (a SYN-ACK resend of 25 bytes costs one unit; at count 0 nothing is sent). -/
+theorem C18_timer_accounting (s : Server H) (hw : s.WF) (t : Timer) (hp : Array Timer)
+    (hpop : tPop s.timers = some (t, hp)) (nowMs a : Nat) (hna : s.NoAct a) :
+    1472 * bytesOf a (({ s with timers := hp } : Server H).handleTimer t nowMs).2 +
+      36800 * (({ s with timers := hp } : Server H).handleTimer t nowMs).1.phi a ≤ 36800 * s.phi a := by
+  have := Server.popTimer_acc hw hpop nowMs a hna
+  omega
+
+/-- No operation other than frames and timers sends anything to such an address. -/
+theorem C18_other_sends (hc : HC H) (s : Server H) (hw : s.WF) (a : Nat) (hna : s.NoAct a) :
+    (∀ s' sent, s.flushActive hc = .ok (s', sent) → bytesOf a sent = 0) ∧
+    (∀ nowMs nowNs s' sent, s.stepActive hc nowMs nowNs = .ok (s', sent) → bytesOf a sent = 0) :=
+  ⟨fun _ _ h => (Server.flushActive_wqs hc hw h).2 a hna,
+   fun nowMs nowNs _ _ h => (Server.stepActive_wqs hc hw nowMs nowNs h).2 a hna⟩
+
+/-- **C18_undersized_ignored.** A datagram shorter than 1472 bytes from an address without an entry
+changes nothing and sends nothing. -/
+theorem C18_undersized_ignored (hc : HC H) (s : Server H) (a : Nat) (bytes : List Nat) (nowMs nowNs : Nat)
+    (hlen : bytes.length < 1472) (hf : s.find a = none) :
+    s.handleFrames hc [(a, bytes)] nowMs nowNs = .ok (s, []) := by
+  rw [Server.handleFrames_single]
+  cases hd : decode (bytes.take MAX_FRAME_SIZE) with
+  | none => rfl
+  | some f =>
+    simp only
+    apply Server.handleFrame_unknown_nonsyn hc hf
+    intro v n r p al hfe
+    subst hfe
+    have := syn_datagram_length hd
+    omega
+
+/-! ### non-vacuity -/
+
+/-- a dummy half connection over `Unit` -/
+def hc0 : HC Unit :=
+  { new := fun _ _ => (), send := fun _ _ _ _ => (), dispatch := fun _ _ => .ok (), step := fun _ _ => .ok (),
+    flush := fun _ r => .ok ((), r, []), receive := fun _ => .ok ((), []), isSendPending := fun _ => false,
+    sendBufferSize := fun _ => 0 }
+
+def ep0 : EpConfig :=
+  { maxSendRate := 1000000, maxReceiveRate := 1000000, maxPacketSize := 1000, maxReceiveAlloc := 100000,
+    keepalive := true, keepaliveIntervalMs := 1000, activeTimeoutMs := 15000 }
+
+def cfg0 : SrvConfig := { maxTotalConnections := 4, maxActiveConnections := 2, enableHandshakeErrors := true, ep := ep0 }
+
+def s0 : Server Unit := Server.init cfg0 0 ⟨[77], 1⟩
+
+example : SRun hc0 cfg0 s0 [] [] [] ∧ SEvent.connect 7 ∉ ([] : List SEvent) := ⟨SRun.init 0 ⟨[77], 1⟩, by simp⟩
+
+example : s0.find 7 = none ∧ ([3, 1, 2] : List Nat).length < 1472 := by decide
+
+example : s0.WF ∧ s0.NoAct 7 := ⟨Server.init_WF _ _ _, fun c hc => by simp [s0, Server.init] at hc⟩
+
+/-- a concrete run (kernel-evaluated, `Uflow/Lemmas/EndpointServerExample.lean`): address 7 sent a
+1472-byte SYN and got the 25-byte SYN-ACK, address 9 sent 3 junk bytes and got nothing; neither has a
+`connect` event: the hypotheses of `C18_ratio` / `C18_ratio_strict` hold with `0 < tx 7`. -/
+example : ∃ (s : Server Unit) (rx tx : List (Nat × List Nat)) (ev : List SEvent),
+    SRun Ex.hc0 Ex.cfg0 s rx tx ev ∧ SEvent.connect 7 ∉ ev ∧ SEvent.connect 9 ∉ ev ∧
+    bytesOf 7 tx = 25 ∧ bytesOf 7 rx = 1472 ∧ bytesOf 9 tx = 0 ∧ bytesOf 9 rx = 3 := by
+  obtain ⟨s1, s2, sent1, sent2, h1, h2, h3, h4, _⟩ := Ex.run
+  have r1 := SRun.op Ex.op1 (SRun.init (hc := Ex.hc0) (cfg := Ex.cfg0) 0 ⟨[77], 1⟩) h1
+  exact ⟨s1, _, _, _, r1, by simp, by simp, by simpa using h3, Ex.rx1_bytes.1, by simpa using h4, Ex.rx1_bytes.2⟩
 
 end Uflow.Props.C18
